@@ -5,7 +5,7 @@ import itertools
 import numpy as np
 
 from pysym import repo_module
-from pysym.core import And, Or, SBool, SInt
+from pysym.core import And, Or, SBool
 from pysym.runner import Harness, load_known
 
 PROPERTY = 'C05'
@@ -292,7 +292,8 @@ def _calls_class(got, want):
                 o.append(c[:2])
         return o
 
-    if first_seen(got) != first_seen(want):
+    fg, fw = first_seen(got), first_seen(want)
+    if [x for x in fg if x in fw] != [x for x in fw if x in fg]:
         return ':variation-order'
     n = min(len(got), len(want))
     if got[:n] == want[:n]:
@@ -528,13 +529,15 @@ class Simulate(Harness):
                  RES + ':SimulationResults.append_all_results',
                  RES + ':SimulationResults.get_result_values_list')
     bounds = ('concrete grids with 0-2 unpacked parameters of length <= 2 '
-              '(quick) / 0-3 parameters of length <= 3 (thorough); rep_max '
-              'symbolic in [1,3] (quick) / [1,5] (thorough); skip pattern, '
-              'stop rule symbolic on <= 2 "active" variations per unit (every '
-              'pair for <= 4 variations, a covering set of pairs above; the '
-              'other variations never skip and never stop early); result '
-              'values unbounded symbolic integers on all variations; <= 2 '
-              'skips per variation')
+              '(quick) / 0-3 parameters of length <= 3 (thorough); skip '
+              'pattern and stop rule symbolic on <= 2 "active" variations per '
+              'unit (pairs: all for <= 4 variations, ring + one diagonal '
+              'above; the other variations never skip and never stop early); '
+              'rep_max symbolic in [1,3] for pairs (thorough: [1,5] for the '
+              'pair of grid g2, for pairs of g2x2 with <= 1 skip, and for '
+              'every single active variation of every grid; [1,6] with <= 3 '
+              'skips without unpacked parameter); result values unbounded '
+              'symbolic integers on all variations; <= 2 skips per variation')
     stubs = ('_run_simulation/_keep_going: instrumented subclass (the hooks '
              'the class documents for users)',
              'simulate(i) only: load_partial_results -> None, '
@@ -551,36 +554,45 @@ class Simulate(Harness):
     def configs(self, tier):
         out = []
         q = tier == 'quick'
-        rep = [1, 3] if q else [1, 5]
+
+        def nvar(g):
+            return len(documented_order(GRIDS[g])[1])
 
         def pairs(n):
             if n <= 4:
                 return [list(p) for p in itertools.combinations(range(n), 2)]
-            ps = [[i, (i + 1) % n] for i in range(n)] + [[0, n // 2]]
-            return ps
+            return [[i, (i + 1) % n] for i in range(n)] + [[0, n // 2]]
 
-        grids = ['g0', 'g2', 'g1x2', 'g2x2'] if q else [
-            'g0', 'g2', 'g1x2', 'g2x2', 'g3', 'g2x3', 'g2x1x2', 'g2x2x2',
-            'g3x3']
+        def unit(g, mode, active, rep, max_skips):
+            out.append(dict(grid=g, mode=mode, active=active, rep=rep,
+                            max_skips=max_skips))
+
+        if not q:
+            # (largest unit first: better load balance)
+            unit('g2', 'all', [0, 1], [1, 5], 2)
+        grids = ['g0', 'g2', 'g1x2', 'g2x2'] if q else list(GRIDS)
         for g in grids:
-            n = len(documented_order(GRIDS[g])[1])
+            n = nvar(g)
             acts = [[0]] if n == 1 else pairs(n)
             if q and g == 'g2x2':
                 acts = [[0, 1], [1, 2], [2, 3], [0, 3]]
             for a in acts:
-                out.append(dict(grid=g, mode='all', active=a, rep=rep,
-                                max_skips=2))
+                unit(g, 'all', a, [1, 3], 2)
+        if not q:
+            # one variation with the full repetition range, every position
+            for g in grids:
+                for v in range(nvar(g)):
+                    unit(g, 'all', [v], [1, 5], 2)
+            unit('g0', 'all', [0], [1, 6], 3)
+            for a in pairs(4):
+                unit('g2x2', 'all', a, [1, 5], 1)
         # single variation index (symbolic index, case split)
         for g in (['g2', 'g2x2'] if q else ['g0', 'g2', 'g2x2', 'g2x3']):
-            n = len(documented_order(GRIDS[g])[1])
-            out.append(dict(grid=g, mode='index', active=list(range(n)),
-                            rep=rep, max_skips=2))
+            unit(g, 'index', list(range(nvar(g))), [1, 3] if q else [1, 5], 2)
         # two consecutive simulate() calls on one runner
-        out.append(dict(grid='g0', mode='twice', active=[0], rep=[1, 2] if q
-                        else [1, 3], max_skips=1 if q else 2))
+        unit('g0', 'twice', [0], [1, 2] if q else [1, 3], 1 if q else 2)
         if not q:
-            out.append(dict(grid='g2', mode='twice', active=[0, 1],
-                            rep=[1, 2], max_skips=1))
+            unit('g2', 'twice', [0, 1], [1, 2], 1)
         return out
 
     def sym(self, ctx, cfg):
@@ -651,9 +663,10 @@ class Resume(Harness):
                  RUN + ':SimulationResultsSaver.save_partial_results_maybe',
                  RES + ':SimulationResults.merge_all_results')
     bounds = ('loaded current_rep r symbolic in [1,1e6], loaded value an '
-              'unbounded symbolic integer; rep_max = r + d, d in [-1,2]; '
-              '<= 1 skip per variation; grids g0 and g2 (state loaded for '
-              'every variation / only for the second one)')
+              'unbounded symbolic integer; rep_max = r + d, d in [-1,2] '
+              '(thorough also [-1,3] with <= 2 skips); <= 1 skip per '
+              'variation; grids g0 and g2 (state loaded for every variation / '
+              'only for the second one)')
     stubs = ('load_partial_results -> symbolic partial state (no file)',
              'save_partial_results -> recorder',
              'clock not stubbed: only the current_rep % 500 trigger of '
@@ -665,13 +678,15 @@ class Resume(Harness):
 
     def configs(self, tier):
         out = [dict(grid='g0', loaded=[0], active=[0], mode='all',
-                    max_skips=1, rep=[1, 4], lookups=False),
+                    max_skips=1, rep=[1, 4], dmax=2, lookups=False),
                dict(grid='g2', loaded=[1], active=[0, 1], mode='all',
-                    max_skips=1, rep=[1, 4], lookups=False)]
+                    max_skips=1, rep=[1, 4], dmax=2, lookups=False)]
         if tier != 'quick':
             out.append(dict(grid='g2', loaded=[0, 1], active=[0, 1],
-                            mode='all', max_skips=1, rep=[1, 4],
+                            mode='all', max_skips=1, rep=[1, 4], dmax=2,
                             lookups=True))
+            out.append(dict(grid='g0', loaded=[0], active=[0], mode='all',
+                            max_skips=2, rep=[1, 4], dmax=3, lookups=False))
         return out
 
     def sym(self, ctx, cfg):
@@ -682,7 +697,7 @@ class Resume(Harness):
             acc = ctx.integer('loaded_value_%d' % v)
             start[v] = (r, acc, r)
             r_first = r if r_first is None else r_first
-        d = ctx.integer('d', -1, 2)
+        d = ctx.integer('d', -1, cfg['dmax'])
         rep_max = r_first + d
         if len(cfg['loaded']) < len(cfg['active']):
             # the fresh variation must still be bounded: rep_max <= 3 there
@@ -691,8 +706,9 @@ class Resume(Harness):
         ctx.assume(rep_max >= 1, 'rep_max >= 1')
         for v in cfg['loaded'][1:]:
             ctx.assume(And(start[v][0] - rep_max <= 1,
-                           rep_max - start[v][0] <= 2),
-                       'every loaded count within [-1,2] of rep_max')
+                           rep_max - start[v][0] <= cfg['dmax']),
+                       'every loaded count within [-1,%d] of rep_max' %
+                       cfg['dmax'])
         dec = SymDec(ctx, cfg['active'], cfg['max_skips'])
         scenario(cfg, rep_max, dec, ctx.prove, start=start)
 
@@ -725,8 +741,10 @@ class Resume(Harness):
         n = 0
         for _ in range(10):
             table = {'d': rng.randrange(-1, 6)}
+            fresh = len(cfg['loaded']) < len(cfg['active'])
             for v in cfg['loaded']:
                 table['loaded_rep_%d' % v] = rng.choice(
+                    [1, 2, 3, 5] if fresh else
                     [1, 2, 7, 499, 500, 998, 10**6])
                 table['loaded_value_%d' % v] = rng.randrange(-99, 99)
             start, rep_max = self._table_start(cfg, table)
@@ -858,7 +876,7 @@ class Lookup(Harness):
                 for fx in itertools.combinations(names, k):
                     out.append(dict(dims=list(dims), fixed=list(fx),
                                     extra=None))
-            out.append(dict(dims=list(dims), fixed=[names[-1]], extra='sym'))
+            out.append(dict(dims=list(dims), fixed=[names[-1]], extra='match'))
             out.append(dict(dims=list(dims), fixed=[], extra='match'))
             if not q:
                 out.append(dict(dims=list(dims), fixed=[names[0]], extra=None,
